@@ -5,6 +5,8 @@ use std::pin::Pin;
 
 use crate::check::Check;
 use crate::refmqtt::{self as rf, Pkt, Ver};
+#[allow(unused_imports)]
+use crate::refmqtt::Ver as _VerUsed;
 use crate::simnet::{ExploreCfg, Outcome, Scenario, Violation};
 use crate::world::*;
 
@@ -16,6 +18,9 @@ pub struct RdCfg {
     /// sizes of the deliveries the explorer may choose from (besides "everything that is left")
     pub steps: Vec<usize>,
     pub max_deliveries: usize,
+    /// v5: the second publish re-uses the first one's packet id while that is still being handled - it is refused
+    /// (PUBACK 0x91) and its payload pieces must be dropped, not fed to the first publish's reader
+    pub dup: bool,
 }
 
 #[derive(Clone, Copy, Debug, PartialEq, Eq)]
@@ -69,7 +74,8 @@ impl Scenario for Rd {
             for (i, n) in cfg.sizes.iter().enumerate() {
                 // distinct byte per publish and position, all >= 0x80
                 let p: Vec<u8> = (0..*n).map(|j| 0x80 + ((i * 37 + j * 5) % 120) as u8).collect();
-                stream.extend(rf::encode(ver, &rf::publish(1, 1 + i as u16, "t", &p)));
+                let pid = if cfg.dup { 1 } else { 1 + i as u16 };
+                stream.extend(rf::encode(ver, &rf::publish(1, pid, "t", &p)));
                 payloads.push(p);
             }
             if cfg.ep.role == Role::Server {
@@ -144,13 +150,18 @@ impl Scenario for Rd {
         }
         let log = self.conn.log.snapshot();
         let abandon = self.cfg.ep.read_mode == ReadMode::Abandon;
-        for (i, want) in self.payloads.iter().enumerate() {
+        // duplicate-id variant: the second publish is refused while the first exchange is open, and accepted like any
+        // other once the first has been acknowledged - both are fine, each handler must see exactly its own bytes
+        let n_enter_dup = log.iter().filter(|(_, r)| matches!(r, Rec::HEnter { .. })).count().clamp(1, 2);
+        let payloads: Vec<Vec<u8>> = if self.cfg.dup { self.payloads[..n_enter_dup].to_vec() } else { self.payloads.clone() };
+        for (i, want) in payloads.iter().enumerate() {
             // handler k = i-th HEnter
             let enter = log.iter().filter_map(|(_, r)| if let Rec::HEnter { k, size, pid, .. } = r { Some((*k, *size, *pid)) } else { None }).nth(i);
             let Some((k, size, pid)) = enter else {
                 return Err(Violation::new("publish-not-announced", self.wit(""), format!("PUBLISH #{i} never reached the handler: {}", self.detail())));
             };
-            if size as usize != want.len() || pid != 1 + i as u16 {
+            let want_pid = if self.cfg.dup { 1 } else { 1 + i as u16 };
+            if size as usize != want.len() || pid != want_pid {
                 return Err(Violation::new("announced-size", self.wit(""), format!("PUBLISH #{i} announced with size {size} / id {pid}, sent {} / {}: {}", want.len(), 1 + i, self.detail())));
             }
             if abandon {
@@ -180,13 +191,22 @@ impl Scenario for Rd {
             }
         }
         let n_enter = log.iter().filter(|(_, r)| matches!(r, Rec::HEnter { .. })).count();
-        if n_enter != self.payloads.len() {
-            return Err(Violation::new("handler-count", self.wit(""), format!("{n_enter} handler invocations for {} publishes: {}", self.payloads.len(), self.detail())));
+        if n_enter != payloads.len() {
+            return Err(Violation::new("handler-count", self.wit(""), format!("{n_enter} handler invocations for {} publishes: {}", payloads.len(), self.detail())));
         }
         // framing survived: every QoS 1 publish acknowledged once, in order; the trailing PINGREQ answered
         let acks: Vec<u16> = self.conn.out.iter().filter_map(|(_, p)| if let Pkt::Ack { typ: 4, pid, .. } = p { Some(*pid) } else { None }).collect();
-        let want_acks: Vec<u16> = (1..=self.payloads.len() as u16).collect();
+        let want_acks: Vec<u16> = if self.cfg.dup { vec![1, 1] } else { (1..=self.payloads.len() as u16).collect() };
         let reader_done = !abandon;
+        if self.cfg.dup && reader_done {
+            let codes: Vec<u8> = self.conn.out.iter().filter_map(|(_, p)| if let Pkt::Ack { typ: 4, pid: 1, code, .. } = p { Some(code.unwrap_or(0)) } else { None }).collect();
+            let mut sorted = codes.clone();
+            sorted.sort();
+            let want_codes = if n_enter_dup == 1 { vec![0x00, 0x91] } else { vec![0x00, 0x00] };
+            if sorted != want_codes {
+                return Err(Violation::new("acks", self.wit("duplicate id"), format!("PUBACK codes for id 1 are {codes:x?} with {n_enter_dup} handler invocation(s), expected {want_codes:x?}: {}", self.detail())));
+            }
+        }
         if reader_done && acks != want_acks {
             return Err(Violation::new("acks", self.wit(""), format!("PUBACKs {acks:?}, expected {want_acks:?}: {}", self.detail())));
         }
@@ -215,12 +235,18 @@ pub fn configs(full: bool) -> Vec<RdCfg> {
                     ep.max_payload_buffer_size = buffer;
                     ep.handler_auto = true;
                     ep.max_receive = 16;
-                    v.push(RdCfg { ep: ep.clone(), sizes: vec![12, 7], steps: if full { vec![1, 3, 6, 9] } else { vec![1, 6, 9] }, max_deliveries: if full { 6 } else { 4 } });
+                    v.push(RdCfg { ep: ep.clone(), sizes: vec![12, 7], steps: if full { vec![1, 3, 6, 9] } else { vec![1, 6, 9] }, max_deliveries: if full { 6 } else { 4 }, dup: false });
+                    // v5: a second publish with the id of the first, which is still being handled: refused, and its
+                    // payload pieces must not reach the first publish's reader (seeded change C10_r5 kept the payload
+                    // sender of a completely received publish in its slot)
+                    if ver == Ver::V5 && role == Role::Server && matches!(read_mode, ReadMode::Lazy | ReadMode::LateAll) && min_chunk == 4 && buffer == 32 * 1024 {
+                        v.push(RdCfg { ep: ep.clone(), sizes: vec![12, 7], steps: if full { vec![1, 3, 6, 9] } else { vec![1, 6, 9] }, max_deliveries: if full { 6 } else { 4 }, dup: true });
+                    }
                     // servers: a byte limit smaller than the first publish (the one packet of slack): its
                     // remaining pieces must still be read and delivered
                     if role == Role::Server && read_mode != ReadMode::Abandon && (full || min_chunk == 4) {
                         ep.max_receive_size = 10;
-                        v.push(RdCfg { ep, sizes: vec![12, 7], steps: if full { vec![1, 3, 6, 9] } else { vec![1, 6, 9] }, max_deliveries: if full { 6 } else { 4 } });
+                        v.push(RdCfg { ep, sizes: vec![12, 7], steps: if full { vec![1, 3, 6, 9] } else { vec![1, 6, 9] }, max_deliveries: if full { 6 } else { 4 }, dup: false });
                     }
                 }
             }
